@@ -57,3 +57,20 @@ def loc(f, n=None):
 def enum_variants(crate, path):
     a = crate.adt(path)
     return [v['name'] for v in a['variants']]
+
+
+def deep_text(crate, e):
+    """textual dump of an expression including the bodies of the closures it mentions (for literal / name lookups)"""
+    out = [str(e)]
+    seen = set()
+    stack = [e]
+    while stack:
+        x = stack.pop()
+        for nd, a in walk(x):
+            if nd.get('k') == 'closure' and nd['def'] not in seen:
+                seen.add(nd['def'])
+                c = crate.closure(nd['def'])
+                if c is not None:
+                    out.append(str(c.hir))
+                    stack.append(c.hir)
+    return ' '.join(out)
